@@ -174,6 +174,7 @@ uint64_t steps();
 uint64_t current_event_hash();
 void set_create_fail(int nth_from_now, int err); // the n-th following pthread_create (1 = next) fails with err
 void set_affinity_fail(int nth_from_now, int err);
+void set_mutex_init_fail(int nth_from_now, int err); // the n-th following pthread_mutex_init of the calling thread fails with err
 // which: 1 pthread_attr_init, 2 pthread_attr_setstacksize, 3 pthread_attr_getstacksize (armed for the calling thread, one shot)
 void set_attr_fail(int which, int err);
 // backtrace(): 0 real, 1 unsupported (returns 0), 2 at most one frame, 3 at most two frames (cfg "backtrace_mode")
